@@ -34,7 +34,7 @@ def run(ctx: Ctx) -> None:
                       "mix": "adv" if wk.get("dry") else ["builtin", "builtin+adv", "adv+builtin", "builtin"][k % 4], "weight": 1})
         if wk.get("dry"):
             items[-1].update({"kinds": ["Reposition", "Reposition", "DispatchBase", "DispatchStation", "Idle"], "p_instr": 0.7})
-        if k % 4 == 1 and not wk.get("pool"):
+        if (k % 4 == 1 or k % 6 == 0) and not wk.get("pool"):
             items[-1]["reuse_ids"] = True      # the file's numbering starts again: ids come back after their first request is gone
         if k % 9 == 4:
             items[-1]["rerun"] = True      # once more into the same output directory
